@@ -128,31 +128,36 @@ class TokenFile:
 
         # Watch for the job
         def run():
-            logger.debug("Locking job lock path %s", lockpath)
-            process = None
-            with fasteners.InterProcessLock(lockpath):
-                if not pidpath.is_file():
-                    logger.debug("Job already finished (no PID file)")
-                else:
-                    s = ""
-                    while s == "":
-                        s = pidpath.read_text()
+            while True:
+                logger.debug("Locking job lock path %s", lockpath)
+                process = None
+                with fasteners.InterProcessLock(lockpath):
+                    if not pidpath.is_file():
+                        logger.debug("Job already finished (no PID file)")
+                    else:
+                        s = ""
+                        while s == "":
+                            s = pidpath.read_text()
 
-                    logger.info("Loading job watcher from definition")
-                    from experimaestro.connectors import Process
+                        logger.info("Loading job watcher from definition")
+                        from experimaestro.connectors import Process
 
-                    # FIXME: not always localhost...
-                    from experimaestro.connectors.local import LocalConnector
+                        # FIXME: not always localhost...
+                        from experimaestro.connectors.local import LocalConnector
 
-                    connector = LocalConnector.instance()
-                    process = Process.fromDefinition(connector, json.loads(s))
+                        connector = LocalConnector.instance()
+                        process = Process.fromDefinition(connector, json.loads(s))
 
-            # Wait out of the lock
-            if process is not None:
-                # Process is None: process has finished
+                    if process is None:
+                        # Process is None: process has finished. The token file
+                        # is removed while the job lock is held: the job cannot
+                        # be started again (which writes a token file with the
+                        # same name) in between
+                        self.delete()
+                        return
+
+                # Wait out of the lock, and look again
                 process.wait()
-
-            self.delete()
 
         threading.Thread(target=run).start()
 
